@@ -19,7 +19,7 @@ import (
 	"verif.local/vlib/rep"
 )
 
-func vfReaskURLs(kind string, thorough bool) (srvCfg ServerConfig, urls []string) {
+func vfReaskURLs(kind string, thorough bool, shift int64) (srvCfg ServerConfig, urls []string) {
 	srvCfg = ServerConfig{VodRoot: vfBundledVod(), DrmCfgFile: vfRepoRoot() + "/pkg/drm/testdata/drm_config_test.json"}
 	type as struct {
 		path, mpd  string
@@ -34,7 +34,7 @@ func vfReaskURLs(kind string, thorough bool) (srvCfg ServerConfig, urls []string
 		span = 90
 	}
 	for _, a := range assets {
-		base := int64(3600) / a.segS // segment index about one hour after the start
+		base := int64(3600)/a.segS + shift*97 // segment index about one hour after the start
 		for k := int64(0); k < span*2/a.segS+2; k++ {
 			n := base + k
 			now := (n+1)*a.segS*1000 + 50
@@ -58,6 +58,11 @@ func vfReaskURLs(kind string, thorough bool) (srvCfg ServerConfig, urls []string
 				add("/livesim2/statuscode_[{cycle:30,rsq:0,code:404}]/%s/%s/%d.m4s?nowMS=%d", a.path, a.vid, n, now)
 				add("/livesim2/statuscode_[{cycle:12,rsq:1,code:503,rep:A48},{cycle:60,rsq:2,code:410}]/%s/%s/%d.m4s?nowMS=%d", a.path, a.aud, n, now+40)
 				add("/livesim2/traffic_u5d3,d2u6/%s/bu%d/%s/%d.m4s?nowMS=%d", a.path, k%2, a.vid, n, now)
+			case "patterns":
+				// fault-injection patterns that differ from request to request (whatever is parsed or remembered per pattern is new each time)
+				add("/livesim2/traffic_u%dd%d,d%du%d/%s/bu%d/%s/%d.m4s?nowMS=%d", 2+k%7+shift*10, 1+k%3, 1+k%4, 3+k%5, a.path, k%2, a.vid, n, now)
+				add("/livesim2/statuscode_[{cycle:%d,rsq:%d,code:404}]/%s/%s/%d.m4s?nowMS=%d", 10+k%50+shift*60, k%3, a.path, a.vid, n, now)
+				add("/livesim2/traffic_u%dd%d/%s/%s?nowMS=%d", 3+k%9+shift*10, 2+k%5, a.path, a.mpd, now)
 			case "audio":
 				add("/livesim2/%s/%s/%d.m4s?nowMS=%d", a.path, a.aud, n, now+40)
 				add("/livesim2/snr_5/start_600/%s/%s/%d.m4s?nowMS=%d", a.path, a.aud, n-600/a.segS+5, now+40)
@@ -107,7 +112,7 @@ func TestVerifReaskRace(t *testing.T) {
 	vfInitLog()
 	_ = ora.GridCeil
 	for _, kind := range kinds {
-		cfg, urls := vfReaskURLs(kind, r.Thorough())
+		cfg, urls := vfReaskURLs(kind, r.Thorough(), 0)
 		if len(urls) == 0 {
 			r.Inconclusive("reask-unknown-family-" + kind)
 			continue
@@ -149,6 +154,34 @@ func TestVerifReaskRace(t *testing.T) {
 				r.Class(fmt.Sprintf("race-unit|%s|status=%d", kind, ref[i].code))
 			}
 		}
+		// requests nobody has asked before, asked for the first time by all clients at once (whatever is parsed, looked up or remembered
+		// per request is then created under concurrency); afterwards the same requests one at a time must give the same answers
+		_, fresh := vfReaskURLs(kind, r.Thorough(), 1)
+		first := make([]vfAns, len(fresh))
+		var got [][]vfAns = make([][]vfAns, G)
+		for g := 0; g < G; g++ {
+			got[g] = make([]vfAns, len(fresh))
+			wg.Add(1)
+			go func(g int) {
+				defer wg.Done()
+				for k := 0; k < len(fresh); k++ {
+					i := (k + g*len(fresh)/G) % len(fresh) // every client asks for every request, each starting at another place
+					got[g][i] = vfAnswer(s, vfReq{"GET", fresh[i], "", kind})
+				}
+			}(g)
+		}
+		wg.Wait()
+		r.Eval(G * len(fresh))
+		for i, u := range fresh {
+			first[i] = vfAnswer(s, vfReq{"GET", u, "", kind})
+			for g := 0; g < G; g++ {
+				if got[g][i] != first[i] {
+					r.Violation("race-unit:"+kind+":first-time-answer-under-concurrency-differs-from-the-answer-given-alone", map[string]any{"url": u, "alone_afterwards": fmt.Sprintf("%+v", first[i]), "at_once": fmt.Sprintf("%+v", got[g][i]), "clients": G})
+					break
+				}
+			}
+		}
+		r.Class(fmt.Sprintf("race-unit|%s|first-time-under-concurrency", kind))
 		r.Sample(map[string]any{"kind": "race unit", "family": kind, "requests": len(urls), "clients": G, "first": urls[0], "answer_alone": fmt.Sprintf("%+v", ref[0])})
 	}
 	if r.NViolations() > 0 {
